@@ -42,7 +42,7 @@ SPEC = {
     "tags": {1: "origins-undecodable-raft", 3: "snapshot-persist-not-point-in-time"},
     "trusted": ["harness/raft/c01_rig_test.go: guard FSM (records Apply/Snapshot/Persist/Restore under one mutex, recovers panics), "
                 "recording PinTracker RPC service, redirect service standing for ConsensusRPCAPI (it names the committer of an acknowledged op), "
-                "in-memory snapshot store (complete snapshots only, newest = highest (term, index) as hashicorp's file store)",
+                "in-memory snapshot store (complete snapshots only, newest = highest (term, index) as hashicorp's file store); the model's store holds persisted and installed snapshots alike",
                 "hashicorp/raft v1.1.1 (replication, commitment, snapshot install - in either direction: nothing is assumed about a snapshot "
                 "being installed only on a replica that is behind it; it was observed not to hold), its in-memory stores and transport; "
                 "the rig's re-sent InstallSnapshot request (leader's identity, term and newest snapshot) stands for the leader's duplicate",
